@@ -17,7 +17,7 @@ RULE = (
     "which entry differs: material, allowable, failure form, strength factor; odd surface first and last): each perf group's stresses and failure == the real "
     "stress / failure components built with that surface's own dictionary on its own converged state"
 )
-ASSUMPTIONS = ["finite alphabets; ny<=5", "element local frame convention x' along element, y' = x' cross global x (as documented for the FEM)", "OpenMDAO/NumPy trusted"]
+ASSUMPTIONS = ["finite alphabets; ny<=5 in the complete product, production-size beams of 16 / 21 / 41 nodes; KS rho in {10, 100, 1e3, 5e3}", "element local frame convention x' along element, y' = x' cross global x (as documented for the FEM)", "OpenMDAO/NumPy trusted"]
 BOUND = {"quick": "ny in {2,3} exhaustively + beams of 16 / 21 / 41 nodes on two layouts", "thorough": "ny in {2,3,5}"}
 E_, G_ = 70.0e9, 30.0e9
 
